@@ -117,6 +117,22 @@ def run_impl(chunk):
                 obs["sizes"] = sizes
                 obs["blocks"] = [{"shape": [int(x) for x in p.shape], "data": [int(x) for x in np.asarray(p).reshape(-1)]} for p in parts]
                 obs["merged"] = {"shape": [int(x) for x in merged.shape], "data": [int(x) for x in np.asarray(merged).reshape(-1)]}
+                # index-level observables derived from the REAL blocks (arange values = row-major positions)
+                pa = [np.asarray(p) for p in parts]
+                obs["grid"] = [len(x) for x in sizes]
+                obs["offsets"] = [[int(v) for v in np.unravel_index(int(p.reshape(-1)[0]), shape)] if p.size else None for p in pa]
+                obs["dims"] = [[int(v) for v in p.shape] for p in pa]
+                loc = [None] * n
+                for k, p in enumerate(pa):
+                    for jdx in np.ndindex(*p.shape):
+                        v = int(p[jdx])
+                        if 0 <= v < n and loc[v] is None:
+                            loc[v] = [k] + [int(q) for q in jdx]
+                obs["locate"] = loc
+                # direct oracle: the blocks tile the tensor (every entry in exactly one block)
+                allv = np.sort(np.concatenate([p.reshape(-1) for p in pa])) if pa else np.zeros(0)
+                if allv.shape[0] != n or not np.array_equal(allv, np.arange(n)):
+                    fails.append(f"blocks of shape {shape} block {b} do not tile the tensor (an entry is missing or duplicated)")
                 # direct oracle
                 if not np.array_equal(np.asarray(merged), np.asarray(t)):
                     fails.append(f"merge_partitions(partition(t)) != t for shape {shape} block {b}")
@@ -213,6 +229,21 @@ def run_impl(chunk):
                 obs["blocks_axis"] = int(meta.blocks_axis)
                 obs["blocked"] = {"shape": [int(v) for v in bx.shape], "data": [int(v) for v in np.asarray(bx).reshape(-1)]}
                 obs["deblocked"] = {"shape": [int(v) for v in dx.shape], "data": [int(v) for v in np.asarray(dx).reshape(-1)]}
+                bxn = np.asarray(bx)
+                flat = bxn.reshape(-1)
+                obs["blocked_shape"] = [int(v) for v in bxn.shape]
+                obs["unblocked"] = [int(v) for v in flat]
+                if sorted(obs["unblocked"]) == list(range(n)):
+                    pos = np.argsort(flat, kind="stable")
+                    obs["blocked_pos"] = [int(v) for v in pos]
+                    co = np.unravel_index(pos, bxn.shape) if bxn.ndim else ()
+                    ba = int(meta.blocks_axis)
+                    obs["block_of"] = [int(v) for v in co[ba]]
+                    obs["inner_of"] = [[int(co[a][i]) for a in range(bxn.ndim) if a != ba] for i in range(n)]
+                    kb = np.moveaxis(bxn, ba, 0)
+                    obs["block_offsets"] = [[int(v) for v in np.unravel_index(int(kb[k].reshape(-1)[0]), shape)] for k in range(kb.shape[0])]
+                else:
+                    fails.append(f"blockify({shape}, {b}) is not a rearrangement of the entries")
                 if not np.array_equal(np.asarray(dx), np.asarray(x)):
                     fails.append(f"deblockify(blockify(x)) != x for shape {shape} block {b}")
                 # each block is a contiguous sub-tensor no larger than the block size
@@ -246,7 +277,8 @@ def model_requests(c, obs):
     if c["op"] == "merge":
         return [{"op": "merge_small_dims", "shape": s, "max_dim": m} for m in c["limits"]]
     if c["op"] == "partition":
-        return [{"op": "split_sizes", "shape": s, "block": c["block"]}, {"op": "partition", "shape": s, "block": c["block"]}]
+        return [{"op": "split_sizes", "shape": s, "block": c["block"]}, {"op": "partition", "shape": s, "block": c["block"]},
+                {"op": "partition_idx", "shape": s, "block": c["block"]}]
     if c["op"] == "precond":
         r = [{"op": "merge_small_dims", "shape": s, "max_dim": c["merge"]}]
         if "tshape" in obs:
@@ -255,7 +287,7 @@ def model_requests(c, obs):
     if c["op"] == "tf_shapes":
         return [{"op": "tf_shapes", "shape": s, "merge_dims": c["merge_dims"], "block": c["block"]}]
     if c["op"] == "blockify":
-        return [{"op": "blockify", "shape": s, "block": c["block"]}]
+        return [{"op": "blockify", "shape": s, "block": c["block"]}, {"op": "blockify_idx", "shape": s, "block": c["block"]}]
     raise ValueError(c["op"])
 
 
@@ -276,6 +308,14 @@ def compare(ctx, c, obs, replies):
         chk("split_sizes", obs["sizes"], replies[0].get("sizes"))
         chk("partition", obs["blocks"], replies[1].get("blocks"))
         chk("merge_partitions", obs["merged"], replies[1].get("merged"))
+        # closed index description (Model/ShapesIdx.lean): block k = t[offsets k : offsets k + dims k], k in product order
+        ix = replies[2]
+        chk("partition_idx.grid", obs["grid"], ix.get("grid"))
+        chk("partition_idx.dims", obs["dims"], ix.get("dims"))
+        mo = ix.get("offsets")
+        chk("partition_idx.offsets", obs["offsets"], [m if o is not None else None for m, o in zip(mo, obs["offsets"])] if isinstance(mo, list) and len(mo) == len(obs["offsets"]) else mo)
+        chk("partition_idx.boxes", obs["blocks"], ix.get("boxes"))
+        chk("partition_idx.locate", obs["locate"], ix.get("locate"))
     elif c["op"] == "precond":
         chk("merge_small_dims", obs["tshape"], replies[0].get("shape"))
         rep = replies[1]
@@ -289,6 +329,10 @@ def compare(ctx, c, obs, replies):
         rep = replies[0]
         for k in ["block_sizes", "num_blocks", "large_axes", "blocks_per_large_axis", "blocks_axis", "blocked", "deblocked"]:
             chk("blockify." + k, obs[k], rep.get(k))
+        ix = replies[1]
+        for k in ["blocked_shape", "unblocked", "blocked_pos", "block_of", "inner_of", "block_offsets"]:
+            if k in obs:
+                chk("blockify_idx." + k, obs[k], ix.get(k))
 
 
 def nontrivial_key(c):
@@ -332,7 +376,8 @@ def run(ctx):
     # the pure shape functions (merge_small_dims, BlockPartitioner.__init__, should_precondition_dims, _derive_shapes,
     # _blocks_metadata) are re-translated from the current source; Props/Gen.lean bridges them to Model/Shapes.lean
     kit.gen_stage(ctx)
-    ctx.lean_stage(extra_props=("Gen",))
+    # Props/C06b.lean (identity preconditioning; needs C02's model, which imports C06) is audited with C06's own theorems
+    ctx.lean_stage(extra_props=("Gen", "C06b"))
     ctx.notes.append("model tie #2: Gen/Src.lean regenerated from the source by harness/py2lean.py on this run; bridge theorems "
                      "PrecondVerif.GenProps.C06.* (Props/Gen.lean) prove it equal to Model/Shapes.lean for all shapes / block sizes")
     cases, note = gen_cases(ctx.tier, ctx.seed)
